@@ -270,6 +270,7 @@ impl C04 {
         match fam {
             0 => render(&self.core.get(idx), None, true),
             1 => render(&self.small.get(idx), None, false),
+            3 => super::scale::programs()[idx as usize].clone(),
             _ => {
                 let p = match self.dev_prefix.binary_search(&idx) {
                     Ok(mut p) => {
@@ -294,6 +295,7 @@ impl Check for C04 {
             ("core".into(), self.core.len()),
             ("closed-by-end-of-input".into(), self.small.len()),
             ("rich-deviation".into(), *self.dev_prefix.last().unwrap()),
+            ("thresholds".into(), super::scale::programs().len() as u64),
         ]
     }
     fn describe(&self, fam: usize, idx: u64) -> Value {
@@ -302,7 +304,8 @@ impl Check for C04 {
     fn run_case(&self, fam: usize, idx: u64, ctx: &mut Ctx) {
         let text = self.text(fam, idx);
         ctx.case_text(&text);
-        let (j, o) = judge(&text, b"", &JudgeOpts::default(), ctx);
+        let opts = JudgeOpts { limits: crate::refmodel::interp::Limits { steps: 400_000, depth: 150 }, ..Default::default() };
+        let (j, o) = judge(&text, b"", &opts, ctx);
         if let Judged::Agree | Judged::Violation = j {
             if text.contains("if ") || text.contains("while ") || text.contains("until ") {
                 ctx.nontrivial();
